@@ -175,6 +175,31 @@ func c05Verify1(m *stun.Message, raw []byte, corrupted bool) (outcome, key, deta
 	return "detected-multi", "", ""
 }
 
+// c05Layout builds a fingerprinted message with n attributes in front and one of five tails and checks it as built.
+func c05Layout(n, tail int) (raw []byte, key, detail string) {
+	b := new(stun.Message)
+	b.TransactionID = [12]byte{0xca, 0xfe, 1, 2, 3, 4, 5, 6, 7, 8, 9, 10}
+	b.Type = stun.NewType(stun.MethodCreatePermission, stun.ClassRequest)
+	b.WriteHeader()
+	for i := 0; i < n; i++ {
+		b.Add(stun.AttrXORPeerAddress, []byte{0, 1, byte(i >> 8), byte(i), 10, 0, byte(i >> 8), byte(i)})
+	}
+	if tail >= 1 {
+		_ = stun.NewShortTermIntegrity("secret").AddTo(b)
+	}
+	if tail == 2 || tail == 3 {
+		b.Add(stun.AttrType(0x001C), patBytes(32, n)) // MESSAGE-INTEGRITY-SHA256
+	}
+	if tail >= 3 {
+		b.Add(stun.AttrSoftware, []byte("behind the MAC"))
+	}
+	var aerr, cerr error
+	if p := catch(func() { aerr = stun.Fingerprint.AddTo(b); cerr = stun.Fingerprint.Check(b) }); p != "" || aerr != nil || cerr != nil {
+		return nil, "built-message-fails-check", fmt.Sprintf("%d attributes, tail layout %d (0 none, 1 MI, 2 MI+MI-SHA256, 3 MI+MI-SHA256+SOFTWARE, 4 MI+SOFTWARE), Fingerprint.AddTo = %v, then Fingerprint.Check on that very message = %v %s", n, tail, aerr, cerr, p)
+	}
+	return append([]byte(nil), b.Raw...), "", ""
+}
+
 func init() {
 	registry["C05"] = propImpl{
 		Run: func(c *Ctx) {
@@ -365,6 +390,33 @@ func init() {
 					}
 				}
 			})
+			// layouts: n attributes in front (a CreatePermission with n peers), then what may stand between them and
+			// FINGERPRINT: nothing, MESSAGE-INTEGRITY, MESSAGE-INTEGRITY and the RFC 8489 MESSAGE-INTEGRITY-SHA256,
+			// other attributes behind the MAC. The message as built and the message as decoded both pass the check.
+			{
+				var ns []int
+				for n := 0; n <= 80; n++ {
+					ns = append(ns, n)
+				}
+				ns = append(ns, 100, 127, 128, 129, 255, 256, 257, 1000, 4000)
+				var li int64
+				for _, n := range ns {
+					for tail := 0; tail < 5; tail++ {
+						li++
+						if !c.Mine(li) || bad {
+							continue
+						}
+						c.Eval(1)
+						raw, k, d := c05Layout(n, tail)
+						if k != "" {
+							c.Violation(k, d, c05Case{Orig: "layout", Hex: fmt.Sprint(n*8 + tail)})
+							bad = true
+							continue
+						}
+						report(raw, nil, "layout")
+					}
+				}
+			}
 			// the largest messages the length field allows
 			if c.Shard == 1%c.NShards {
 				for _, sz := range []int{65000, 65500, 65504, 65508, 65512, 65516, 65520} {
@@ -550,6 +602,14 @@ func init() {
 				c.Fail("%v", err)
 			}
 			raw, _ := hex.DecodeString(k.Hex)
+			if k.Orig == "layout" {
+				var v int
+				fmt.Sscan(k.Hex, &v)
+				if _, key, d := c05Layout(v/8, v%8); key != "" {
+					c.Violation(key, d, k)
+				}
+				return
+			}
 			if k.Orig == "large" {
 				var sz int
 				fmt.Sscan(k.Hex, &sz)
